@@ -1201,6 +1201,8 @@ func (s *S3Proxy) ListObjectsV2(ctx context.Context, input *s3.ListObjectsV2Inpu
 		NextContinuationToken: out.NextContinuationToken,
 		Prefix:                out.Prefix,
 		KeyCount:              out.KeyCount,
+		// echo of the request parameter, part of the listing document
+		StartAfter: out.StartAfter,
 	}, nil
 }
 
